@@ -358,6 +358,20 @@ func authErrorOnBlock(b *ssa.BasicBlock) bool {
 					}
 				}
 			}
+			// a helper that does nothing but build that result
+			if call, ok := in.(*ssa.Call); ok {
+				if sc := call.Call.StaticCallee(); sc != nil && sc.Pkg != nil && isLibPkgPath(sc.Pkg.Pkg.Path()) && len(sc.Blocks) > 0 && sc != b.Parent() {
+					nret := 0
+					allInstrs(sc, func(i2 ssa.Instruction) {
+						if isReturn(i2) {
+							nret++
+						}
+					})
+					if nret == 1 && authErrorOnBlock(sc.Blocks[0]) {
+						found = true
+					}
+				}
+			}
 			if _, ok := in.(*ssa.Return); ok {
 				return found
 			}
